@@ -38,8 +38,12 @@ func idInt(nameID string) int {
 }
 
 func checkA(h History) *core.Violation {
+	return onExistingFile(h, runA(h, h.dbMode()), func() *core.Violation { return runA(h, "fresh") })
+}
+
+func runA(h History, mode string) *core.Violation {
 	sweepOnce.Do(func() { pvx.SweepStale("c10") })
-	w, err := pvx.NewWorld("c10", h.Existed)
+	w, _, err := pvx.NewWorldMode("c10", mode)
 	if err != nil {
 		panic("harness: " + err.Error())
 	}
@@ -537,7 +541,7 @@ func genOps(t *rapid.T, n, nagents int, allowHTTP bool) []Op {
 func genA(t *rapid.T) History {
 	var h History
 	h.Agents = genAgents(t, 1, 5)
-	h.Existed = rapid.Bool().Draw(t, "existed")
+	h.DB = rapid.SampledFrom([]string{"fresh", "existed", "golden"}).Draw(t, "db")
 	// a few registrations first so that the rest of the history has somebody to act on
 	nreg := rapid.IntRange(1, len(h.Agents)).Draw(t, "nreg")
 	for i := 0; i < nreg; i++ {
@@ -732,7 +736,7 @@ func classifyH(h History) core.Class {
 	add(s.ledit, "listener-edit")
 	add(s.lremove, "listener-removed")
 	add(s.lcollide, "listener-names-colliding")
-	add(h.Existed, "db-existed")
+	add(true, "db:"+h.dbMode())
 	var lk []string
 	for k := range s.lkinds {
 		lk = append(lk, k)
@@ -769,7 +773,7 @@ func classifyH(h History) core.Class {
 	if s.linkDel {
 		link = "add+remove"
 	}
-	cl.Fingerprint = fmt.Sprintf("death=%v|link=%s|num=%s|listeners=%s|edit=%v|hi=%v|collide=%v", s.death, link, s.numClass, strings.Join(lk, "+"), s.ledit, s.hiID, s.lcollide)
+	cl.Fingerprint = fmt.Sprintf("death=%v|link=%s|num=%s|listeners=%s|edit=%v|hi=%v|collide=%v|db=%s", s.death, link, s.numClass, strings.Join(lk, "+"), s.ledit, s.hiID, s.lcollide, h.dbMode())
 	return cl
 }
 
@@ -788,7 +792,7 @@ func dedup(in []string) []string {
 func TestC10a(t *testing.T) {
 	core.Run(t, core.Spec[History]{
 		Property: "C10", Sub: "a",
-		Rule: "histories of 1-5 registrations followed by 0-25 operations over 1-5 agents (ids over the whole 32-bit range incl. >= 2^31; metadata strings from {plain, digit-only, leading zeros, exponent-like, hex-like, whitespace-padded, empty, non-ASCII, quotes/SQL, decimal/signed/huge numbers, 300-9000 bytes}): reg, poll, pivot connect/disconnect, COMMAND_CHECKIN with new metadata and key, sleep / kill-date / working-hours callbacks, exit, kill-date, operator mark dead/alive, listener add (SMB, External; HTTP on an ephemeral port at ~1/20 of adds; names, and a third of the pipe names / endpoints, mostly from one per-history family of strings that differ but collide under ASCII/Unicode case, LIKE/glob wildcards vs literal characters, leading/trailing blanks, prefixes, Unicode normalisation or SQL quoting - label listener-names-colliding = two such listeners coexist) / remove / HTTP edit through the operator's DispatchEvent path; then a fresh db.DatabaseNew on the same file read with AgentAll/ParentOf/LinksOf/ListenerAll. Oracle: restored agents == active sessions of the running server, 25 columns equal byte for byte incl. key and IV; ParentOf/LinksOf == the server's Links lists; listener rows == listeners present with every operator-configured field equal. Non-trivial: a death, a link change or a numeric-looking string before the reopen; distinct = (death, link none/add/add+remove, numeric class, listener kinds, edit, id>=2^31)",
+		Rule: "histories of 1-5 registrations followed by 0-25 operations over 1-5 agents (database file, a third each: fresh / created by the current code and opened again / a copy of the committed testdata/golden-schema.db made by the unchanged tree - labels db:fresh|existed|golden; a violation on the golden file only, while its schema differs from a fresh one, is reported as schema|existing-database-differs-from-fresh|<tables>; ids over the whole 32-bit range incl. >= 2^31; metadata strings from {plain, digit-only, leading zeros, exponent-like, hex-like, whitespace-padded, empty, non-ASCII, quotes/SQL, decimal/signed/huge numbers, 300-9000 bytes}): reg, poll, pivot connect/disconnect, COMMAND_CHECKIN with new metadata and key, sleep / kill-date / working-hours callbacks, exit, kill-date, operator mark dead/alive, listener add (SMB, External; HTTP on an ephemeral port at ~1/20 of adds; names, and a third of the pipe names / endpoints, mostly from one per-history family of strings that differ but collide under ASCII/Unicode case, LIKE/glob wildcards vs literal characters, leading/trailing blanks, prefixes, Unicode normalisation or SQL quoting - label listener-names-colliding = two such listeners coexist) / remove / HTTP edit through the operator's DispatchEvent path; then a fresh db.DatabaseNew on the same file read with AgentAll/ParentOf/LinksOf/ListenerAll. Oracle: restored agents == active sessions of the running server, 25 columns equal byte for byte incl. key and IV; ParentOf/LinksOf == the server's Links lists; listener rows == listeners present with every operator-configured field equal. Non-trivial: a death, a link change or a numeric-looking string before the reopen; distinct = (death, link none/add/add+remove, numeric class, listener kinds, edit, id>=2^31)",
 		Gen:   genA, Check: checkA, Classify: classifyH,
 		Assumptions: []string{
 			"reference for 'what had happened' is the state the running server holds in memory when the last operation returned; callbacks are delivered through agent.TaskDispatch, registrations and polls through handlers.(*External).Request",
